@@ -260,7 +260,7 @@ pub fn run(ctx: &Ctx) -> i32 {
     v.push((-0.5, 0.9));
     v
   };
-  let radii2 = [1e-3, 0.01, 0.05, 0.1, 0.2, 0.4, 0.8, 1.2];
+  let radii2 = [1e-3, 0.01, 0.05, 0.1, 0.2, 0.4, 0.8, 1.2, 1.5, HALF_PI, 1.7, 2.0, 2.4, 2.62, 2.8, 2.9, 3.0, 3.1, PI];
   let mut total = par_jobs(jobs.len(), |j| {
     let mut part = Part::new();
     if ctx.over_budget() {
